@@ -62,9 +62,27 @@ def _build_ext(stage_dir, rel):
     return 'miss'
 
 
+LIVE = []   # staging directories of this process (removed by unstage / the runner's timeout handler)
+
+
+def _sweep_stale(max_age_s=3 * 3600):
+    """Remove staging directories left behind by runs that were killed (older than any run can be)."""
+    import glob
+    import time
+    now = time.time()
+    for old in glob.glob(os.path.join(tempfile.gettempdir(), 'enspara_stage_*')):
+        try:
+            if now - os.path.getmtime(old) > max_age_s:
+                shutil.rmtree(old, ignore_errors=True)
+        except OSError:
+            pass
+
+
 def stage():
     """Copy /repo/enspara into a fresh temp dir and build; returns (dir, info)."""
+    _sweep_stale()
     d = tempfile.mkdtemp(prefix='enspara_stage_')
+    LIVE.append(d)
     info = {}
     lock = _lock()
     try:
@@ -89,6 +107,8 @@ def activate(d):
 
 def unstage(d):
     shutil.rmtree(d, ignore_errors=True)
+    if d in LIVE:
+        LIVE.remove(d)
 
 
 if __name__ == '__main__':
